@@ -493,4 +493,36 @@ theorem js_embL (c : JCtx) : ∀ (as : List Expr), JsOkL as = true → ∀ (ops 
     exact Texts.cons (js_emb c e hf.1 x hx ind) (js_embL c es hf.2 xs hxs ind)
 end
 
+/-- the call case for any name of the operand list (`<load_list>` in expression position, `load_list` for a command) and
+    any `with_result` flag -/
+theorem js_callnode (c : JCtx) (f : Spec.Name) (as : List Expr) (hf : JsOkE (.call f as) = true) (nm : Str) (p p' : Int) (wr : Bool)
+    (ops : List Node) (hops : EmbL as ops) (ind : Nat) :
+    js true false (.callFn (.s f) p (.loadList nm p' ops.reverse) true false wr .none) ind = .ok (.s (txJ (toJsE c (.call f as)))) := by
+  simp only [JsOkE, Bool.and_eq_true, Bool.not_eq_true'] at hf
+  obtain ⟨⟨⟨hid, hsp⟩, hlf⟩, has⟩ := hf
+  have hnew := jsIdOk_not_kw f hid "new" (by decide)
+  have hret := jsIdOk_not_kw f hid "return" (by decide)
+  have ht := (js_embL c as has ops hops ind).reverse
+  have hl : jsStrs true (if ops.reverse.isEmpty then false else listFn f) ops.reverse ind = .ok (txL c as).reverse := by
+    apply jsStrs_texts true _ ind _ _ ht
+    intro hgv x hx
+    cases as with
+    | nil =>
+      simp only [EmbL] at hops; subst hops
+      simp at hx
+    | cons e es =>
+      obtain ⟨x0, xs, rfl, hx0, _⟩ := hops
+      have hx' : x0 = x := by simpa using hx
+      subst hx'
+      have hne : (x0 :: xs).reverse.isEmpty = false := by simp
+      rw [hne] at hgv
+      simp only [Bool.false_eq_true, if_false] at hgv
+      rw [hgv] at hlf
+      simp only [Bool.true_and] at hlf
+      refine emb_not_sym e x0 hx0 ?_
+      intro s hs; subst hs; simp [headIsSym] at hlf
+  rw [js_call_plain f p p' _ ops.reverse true false wr ind _ hsp hnew hret hl, commaJoinRev_reverse, joinWith_txL,
+    toJsE, toJsCall_plain c f as _ hsp hnew]
+  simp only [txJ, np_id, Bool.false_eq_true, if_false]
+
 end Drx.LinkJs
